@@ -124,8 +124,8 @@ theorem xcount_mono (cnts : List Nat) : ∀ {a b : Nat}, a ≤ b → xcount cnts
     variable (1: a scalar).  The first `i` variables have their stack slot: the temporary `%.σ[k]` holds the
     address of the `k`-th allocation of the frame, which has room for the elements of the variable, and if
     element `e` holds a value in `s` (cell `ecell`), its bytes contain the `8·size`-bit representation. -/
-structure AInv (M0 : Mem) (cnts : List Nat) (σ : List Nat) (vtys : List CSem.Ty) (s : Store) (i : Nat)
-    (env : Env) (M : Mem) : Prop where
+structure AInv (M0 : Mem) (cnts : List Nat) (W : List (CSem.Ty × Nat × Nat)) (σ : List Nat)
+    (vtys : List CSem.Ty) (s : Store) (i : Nat) (env : Env) (M : Mem) : Prop where
   mem : MemInv M
   ssize : M.stack.size = M0.stack.size + i
   sp_lo : M0.sp ≤ M.sp + 64 + 32 * i + 8 * xcount cnts i
@@ -139,6 +139,16 @@ structure AInv (M0 : Mem) (cnts : List Nat) (σ : List Nat) (vtys : List CSem.Ty
       al.size = t.size * cnts.getD k 1 ∧ al.bytes.size = al.size ∧ al.base + al.size ≤ M0.sp ∧
       ∀ e v, e < cnts.getD k 1 → s[ecell k (xbase cnts k) e]? = some (some v) →
         ((loadLE al.bytes (e * t.size) t.size).toNat : Int) = v % 2 ^ (8 * t.size)
+  /-- the read-only array parameters (`W[j] = (t, w, c0)` for parameter `j`): the slot holds the address of an
+      allocation of the callers, whose bytes are the elements seen in the cells `c0 …` -/
+  wins : ∀ (j : Nat) (t : CSem.Ty) (w c0 : Nat), W[j]? = some (t, w, c0) →
+    j < i ∧ vtys.length + xcount cnts cnts.length ≤ c0 ∧
+    ∃ (al : Alloc) (pv : UInt64) (j' : Nat) (al' : Alloc),
+      M.stack[M0.stack.size + j]? = some al ∧ loadLE al.bytes 0 8 = pv ∧
+      j' < M0.stack.size ∧ M0.stack[j']? = some al' ∧ al'.base = pv.toNat ∧ w * t.size ≤ al'.size ∧
+      al'.bytes.size = al'.size ∧ al'.base + al'.size ≤ stackTop ∧
+      ∀ e v, e < w → s[c0 + e]? = some (some v) →
+        ((loadLE al'.bytes (e * t.size) t.size).toNat : Int) = v % 2 ^ (8 * t.size)
 
 theorem set_get_ne {α : Type} (l : List α) {i j : Nat} (x : α) (h : i ≠ j) : (l.set i x)[j]? = l[j]? := by
   rw [List.getElem?_set]; simp [h]
@@ -172,33 +182,43 @@ theorem ecell_inj (cnts : List Nat) {k k' e e' : Nat} (hk : k < cnts.length) (hk
         omega
 
 /-- the environment may change outside the slot temporaries -/
-theorem AInv.env {M0 : Mem} {cnts σ : List Nat} {vtys : List CSem.Ty} {s : Store} {i : Nat} {env env' : Env}
-    {M : Mem} (h : AInv M0 cnts σ vtys s i env M)
+theorem AInv.env {M0 : Mem} {cnts σ : List Nat} {W : List (CSem.Ty × Nat × Nat)} {vtys : List CSem.Ty} {s : Store} {i : Nat} {env env' : Env}
+    {M : Mem} (h : AInv M0 cnts W σ vtys s i env M)
     (he : ∀ k, k < i → env'[tmpName (σ.getD k 0)]? = env[tmpName (σ.getD k 0)]?) :
-    AInv M0 cnts σ vtys s i env' M := by
-  refine ⟨h.mem, h.ssize, h.sp_lo, h.sp_hi, h.top, h.globals, h.below, ?_⟩
+    AInv M0 cnts W σ vtys s i env' M := by
+  refine ⟨h.mem, h.ssize, h.sp_lo, h.sp_hi, h.top, h.globals, h.below, ?_, h.wins⟩
   intro k t hk ht
   obtain ⟨a, al, h1, h2⟩ := h.slots k t hk ht
   exact ⟨a, al, by rw [he k hk]; exact h1, h2⟩
 
 /-- the value of a cell becomes indeterminate -/
-theorem AInv.forget {M0 : Mem} {cnts σ : List Nat} {vtys : List CSem.Ty} {s : Store} {i : Nat} {env : Env}
-    {M : Mem} (h : AInv M0 cnts σ vtys s i env M) (j : Nat) : AInv M0 cnts σ vtys (s.set j none) i env M := by
-  refine ⟨h.mem, h.ssize, h.sp_lo, h.sp_hi, h.top, h.globals, h.below, ?_⟩
-  intro k t hk ht
-  obtain ⟨a, al, h1, h2, h3, h4, h5, h6, h6b, h7⟩ := h.slots k t hk ht
-  refine ⟨a, al, h1, h2, h3, h4, h5, h6, h6b, ?_⟩
-  intro e v he hv
-  by_cases hjk : j = ecell k (xbase cnts k) e
-  · rw [← hjk, List.getElem?_set] at hv
-    simp only [if_true] at hv
-    split at hv <;> cases hv
-  · rw [set_get_ne _ _ hjk] at hv
-    exact h7 e v he hv
+theorem AInv.forget {M0 : Mem} {cnts σ : List Nat} {W : List (CSem.Ty × Nat × Nat)} {vtys : List CSem.Ty} {s : Store} {i : Nat} {env : Env}
+    {M : Mem} (h : AInv M0 cnts W σ vtys s i env M) (j : Nat) : AInv M0 cnts W σ vtys (s.set j none) i env M := by
+  refine ⟨h.mem, h.ssize, h.sp_lo, h.sp_hi, h.top, h.globals, h.below, ?_, ?_⟩
+  · intro k t hk ht
+    obtain ⟨a, al, h1, h2, h3, h4, h5, h6, h6b, h7⟩ := h.slots k t hk ht
+    refine ⟨a, al, h1, h2, h3, h4, h5, h6, h6b, ?_⟩
+    intro e v he hv
+    by_cases hjk : j = ecell k (xbase cnts k) e
+    · rw [← hjk, List.getElem?_set] at hv
+      simp only [if_true] at hv
+      split at hv <;> cases hv
+    · rw [set_get_ne _ _ hjk] at hv
+      exact h7 e v he hv
+  · intro j' t w c0 hw
+    obtain ⟨gi, g0, al, pv, j2, al', g1, g2, g3, g4, g5, g6, g7, g8, g9⟩ := h.wins j' t w c0 hw
+    refine ⟨gi, g0, al, pv, j2, al', g1, g2, g3, g4, g5, g6, g7, g8, ?_⟩
+    intro e v he hv
+    by_cases hjk : j = c0 + e
+    · rw [← hjk, List.getElem?_set] at hv
+      simp only [if_true] at hv
+      split at hv <;> cases hv
+    · rw [set_get_ne _ _ hjk] at hv
+      exact g9 e v he hv
 
 /-- `alloc` of the next variable's slot, when none of its elements holds a value. -/
-theorem AInv.alloc {M0 : Mem} {cnts σ : List Nat} {vtys : List CSem.Ty} {s : Store} {i : Nat} {env : Env}
-    {M : Mem} (h : AInv M0 cnts σ vtys s i env M) {t : CSem.Ty} (hi : i < cnts.length)
+theorem AInv.alloc {M0 : Mem} {cnts σ : List Nat} {W : List (CSem.Ty × Nat × Nat)} {vtys : List CSem.Ty} {s : Store} {i : Nat} {env : Env}
+    {M : Mem} (h : AInv M0 cnts W σ vtys s i env M) {t : CSem.Ty} (hi : i < cnts.length)
     (hc : 1 ≤ cnts.getD i 1) (hcmax : cnts.getD i 1 ≤ 100000000)
     (hroom : stackLimit + 128 + 32 * (i + 1) + 8 * xcount cnts (i + 1) ≤ M0.sp)
     (hsmall : M0.stack.size + i + 1 < 2 ^ 64)
@@ -209,7 +229,7 @@ theorem AInv.alloc {M0 : Mem} {cnts σ : List Nat} {vtys : List CSem.Ty} {s : St
       M1.globals = M.globals ∧
       ∀ env' : Env, (∀ k, k < i → env'[tmpName (σ.getD k 0)]? = env[tmpName (σ.getD k 0)]?) →
         env'[tmpName (σ.getD i 0)]? = some ⟨.l, base.toUInt64⟩ → vtys[i]? = some t →
-        AInv M0 cnts σ vtys s (i + 1) env' M1 := by
+        AInv M0 cnts W σ vtys s (i + 1) env' M1 := by
   have hsz : 0 < t.size ∧ t.size ≤ 8 := by rcases size_cases t with h | h | h | h <;> omega
   have hal : (if t.size = 8 then 8 else 4) = 4 ∨ (if t.size = 8 then 8 else 4) = 8 := by
     split <;> simp
@@ -227,7 +247,7 @@ theorem AInv.alloc {M0 : Mem} {cnts σ : List Nat} {vtys : List CSem.Ty} {s : St
     rw [UInt64.toNat_ofNat']; exact Nat.mod_eq_of_lt hbase64
   refine ⟨base, _, hbase64, exec_alloc _ _ _ (by omega) halloc, rfl, ?_⟩
   intro env' he hnew hti
-  refine ⟨hinv1, by simp [h.ssize]; omega, ?_, ?_, h.top, h.globals, ?_, ?_⟩
+  refine ⟨hinv1, by simp [h.ssize]; omega, ?_, ?_, h.top, h.globals, ?_, ?_, ?_⟩
   · have := h.sp_lo
     show M0.sp ≤ base + 64 + 32 * (i + 1) + 8 * xcount cnts (i + 1)
     omega
@@ -260,6 +280,15 @@ theorem AInv.alloc {M0 : Mem} {cnts σ : List Nat} {vtys : List CSem.Ty} {s : St
       simp only [this, if_false]
       exact h2
 
+  · intro j t' w c0 hw
+    obtain ⟨gi, g0, al, pv, j2, al', g1, g2, g3, g4, g5, g6, g7, g8, g9⟩ := h.wins j t' w c0 hw
+    refine ⟨by omega, g0, al, pv, j2, al', ?_, g2, g3, g4, g5, g6, g7, g8, g9⟩
+    show (M.stack.push _)[M0.stack.size + j]? = _
+    rw [Array.getElem?_push]
+    have : ¬ M0.stack.size + j = M.stack.size := by rw [h.ssize]; omega
+    simp only [this, if_false]
+    exact g1
+
 /-- What a register must hold for `store` into a slot of type `t` to write the representation of `v`. -/
 def StoreVal (t : CSem.Ty) (v : Int) (r : RVal) : Prop :=
   ∃ x : UInt64, (if t.size = 8 then r.asL else r.asW) = .ok x ∧
@@ -284,15 +313,15 @@ theorem lt_of_get' {α : Type} {l : List α} {i : Nat} {x : α} (h : l[i]? = som
   · rw [List.getElem?_eq_none h'] at h; cases h
 
 /-- `store` into element `e` of variable `k`: the address is the base plus `e` times the element size. -/
-theorem AInv.storeAt {M0 : Mem} {cnts σ : List Nat} {vtys : List CSem.Ty} {s : Store} {i : Nat} {env : Env}
-    {M : Mem} (h : AInv M0 cnts σ vtys s i env M) (hcl : cnts.length = vtys.length) {k : Nat} {t : CSem.Ty}
-    (hk : k < i) (hkt : vtys[k]? = some t) {e : Nat} (he : e < cnts.getD k 1)
+theorem AInv.storeAt {M0 : Mem} {cnts σ : List Nat} {W : List (CSem.Ty × Nat × Nat)} {vtys : List CSem.Ty} {s : Store} {i : Nat} {env : Env}
+    {M : Mem} (h : AInv M0 cnts W σ vtys s i env M) (hcl : cnts.length = vtys.length) {k : Nat} {t : CSem.Ty}
+    (hk : k < i) (hWk : W.length ≤ k) (hkt : vtys[k]? = some t) {e : Nat} (he : e < cnts.getD k 1)
     {v : Int} {r : RVal} (hr : StoreVal t v r) :
     ∃ (a : UInt64) (M' : Mem), env[tmpName (σ.getD k 0)]? = some ⟨.l, a⟩ ∧
       (∀ ra : RVal, ra.asL = .ok (UInt64.ofNat (a.toNat + e * t.size)) →
         execOp (.store (storeOf t)) none [r, ra] M none = .ok (dummy, M')) ∧
       M'.globals = M.globals ∧ a.toNat + e * t.size < 2 ^ 64 ∧
-      AInv M0 cnts σ vtys (s.set (ecell k (xbase cnts k) e) (some v)) i env M' := by
+      AInv M0 cnts W σ vtys (s.set (ecell k (xbase cnts k) e) (some v)) i env M' := by
   obtain ⟨a, al, h1, h2, h3, h4, h5, h5b, h5c, h7⟩ := h.slots k t hk hkt
   have hk' : M0.stack.size + k < M.stack.size := by rw [h.ssize]; omega
   have hal : M.stack[M0.stack.size + k] = al := by
@@ -329,14 +358,35 @@ theorem AInv.storeAt {M0 : Mem} {cnts σ : List Nat} {vtys : List CSem.Ty} {s : 
         rcases size_cases t with hs | hs | hs | hs <;> simp [storeOf, hs] at h8 ⊢
       refine exec_store_w (storeOf t) hso hra hx ?_
       rw [storeSize_storeOf, hna]; exact hst
+  have hkl0 : k < cnts.length := by rw [hcl]; exact lt_of_get' hkt
   refine ⟨modify_inv h.mem _ _ (fun a => ⟨rfl, rfl⟩), by simp [h.ssize], h.sp_lo, h.sp_hi, h.top,
-    h.globals, ?_, ?_⟩
+    h.globals, ?_, ?_, ?_⟩
   · intro k' hk'b
     show (M.stack.modify (M0.stack.size + k) _)[k']? = _
     rw [Array.getElem?_modify]
     have : ¬ M0.stack.size + k = k' := by omega
     simp only [this, if_false]
     exact h.below k' hk'b
+  rotate_left
+  · intro j t' w c0 hw
+    obtain ⟨gi, g0, al2, pv, j2, al', g1, g2, g3, g4, g5, g6, g7, g8, g9⟩ := h.wins j t' w c0 hw
+    have hjW : j < W.length := lt_of_get' hw
+    refine ⟨gi, g0, al2, pv, j2, al', ?_, g2, g3, g4, g5, g6, g7, g8, ?_⟩
+    · show (M.stack.modify (M0.stack.size + k) _)[M0.stack.size + j]? = _
+      rw [Array.getElem?_modify]
+      have : ¬ M0.stack.size + k = M0.stack.size + j := by omega
+      simp only [this, if_false]
+      exact g1
+    · intro e' v' he' hv'
+      have hne : ecell k (xbase cnts k) e ≠ c0 + e' := by
+        unfold ecell xbase
+        have hm := xcount_mono cnts (a := k + 1) (b := cnts.length) (by omega)
+        rw [xcount_succ cnts hkl0] at hm
+        split
+        · rw [← hcl] at g0; omega
+        · rw [← hcl] at g0; omega
+      rw [set_get_ne _ _ hne] at hv'
+      exact g9 e' v' he' hv'
   intro k' t' hk'i ht'
   have hkl : k < cnts.length := by rw [hcl]; exact lt_of_get' hkt
   have hkl' : k' < cnts.length := by rw [hcl]; exact lt_of_get' ht'
@@ -397,21 +447,65 @@ theorem AInv.storeAt {M0 : Mem} {cnts σ : List Nat} {vtys : List CSem.Ty} {s : 
       exact g7 e' v' he' hv'
 
 /-- `store` into the slot of the (scalar, or first element of the) variable `k`. -/
-theorem AInv.store {M0 : Mem} {cnts σ : List Nat} {vtys : List CSem.Ty} {s : Store} {i : Nat} {env : Env}
-    {M : Mem} (h : AInv M0 cnts σ vtys s i env M) (hcl : cnts.length = vtys.length) {k : Nat} {t : CSem.Ty}
-    (hk : k < i) (hkt : vtys[k]? = some t) {v : Int} {r : RVal} (hr : StoreVal t v r) :
+theorem AInv.store {M0 : Mem} {cnts σ : List Nat} {W : List (CSem.Ty × Nat × Nat)} {vtys : List CSem.Ty} {s : Store} {i : Nat} {env : Env}
+    {M : Mem} (h : AInv M0 cnts W σ vtys s i env M) (hcl : cnts.length = vtys.length) {k : Nat} {t : CSem.Ty}
+    (hk : k < i) (hWk : W.length ≤ k) (hkt : vtys[k]? = some t) {v : Int} {r : RVal} (hr : StoreVal t v r) :
     ∃ (a : UInt64) (M' : Mem), env[tmpName (σ.getD k 0)]? = some ⟨.l, a⟩ ∧
       execOp (.store (storeOf t)) none [r, ⟨.l, a⟩] M none = .ok (dummy, M') ∧
-      M'.globals = M.globals ∧ AInv M0 cnts σ vtys (s.set k (some v)) i env M' := by
+      M'.globals = M.globals ∧ AInv M0 cnts W σ vtys (s.set k (some v)) i env M' := by
   obtain ⟨_, _, _, _, _, h4, _⟩ := h.slots k t hk hkt
-  obtain ⟨a, M', h1, h2, h3, _, h5⟩ := h.storeAt hcl hk hkt (e := 0) (by omega) hr
+  obtain ⟨a, M', h1, h2, h3, _, h5⟩ := h.storeAt hcl hk hWk hkt (e := 0) (by omega) hr
   rw [ecell_zero] at h5
   refine ⟨a, M', h1, h2 ⟨.l, a⟩ ?_, h3, h5⟩
   simp [RVal.asL]
 
+/-- the slot of an array parameter has received the address of an allocation of the callers: the parameter
+    joins the established windows; as an integer variable it is forgotten -/
+theorem AInv.addWin {M0 : Mem} {cnts σ : List Nat} {W : List (CSem.Ty × Nat × Nat)} {vtys : List CSem.Ty} {s : Store} {i : Nat} {env : Env}
+    {M : Mem} (h : AInv M0 cnts W σ vtys s (i + 1) env M) (hWi : W.length = i)
+    (hti : vtys[i]? = some .ulong) {pv : UInt64} (hsi : s[i]? = some (some (pv.toNat : Int)))
+    {t : CSem.Ty} {w c0 : Nat} (hc0 : vtys.length + xcount cnts cnts.length ≤ c0)
+    {j' : Nat} {al' : Alloc} (hj' : j' < M0.stack.size) (hal' : M0.stack[j']? = some al')
+    (hb : al'.base = pv.toNat) (hsz : w * t.size ≤ al'.size) (hbs : al'.bytes.size = al'.size)
+    (htop : al'.base + al'.size ≤ stackTop)
+    (hel : ∀ e v, e < w → s[c0 + e]? = some (some v) →
+      ((loadLE al'.bytes (e * t.size) t.size).toNat : Int) = v % 2 ^ (8 * t.size)) :
+    AInv M0 cnts (W ++ [(t, w, c0)]) σ vtys (s.set i none) (i + 1) env M := by
+  have hf := h.forget i
+  have hiv : i < vtys.length := lt_of_get' hti
+  refine ⟨hf.mem, hf.ssize, hf.sp_lo, hf.sp_hi, hf.top, hf.globals, hf.below, hf.slots, ?_⟩
+  intro j t1 w1 c1 hw
+  by_cases hj : j < W.length
+  · rw [List.getElem?_append_left hj] at hw
+    exact hf.wins j t1 w1 c1 hw
+  · rw [List.getElem?_append_right (by omega)] at hw
+    have hj0 : j - W.length = 0 := by
+      rcases Nat.eq_zero_or_pos (j - W.length) with h0 | h0
+      · exact h0
+      · rw [List.getElem?_eq_none (by simp; omega)] at hw; cases hw
+    rw [hj0] at hw
+    simp only [List.getElem?_cons_zero, Option.some.injEq, Prod.mk.injEq] at hw
+    obtain ⟨rfl, rfl, rfl⟩ := hw
+    have hji : j = i := by omega
+    subst hji
+    obtain ⟨a, al, h1, h2, h3, h4, h5, h5b, h5c, h7⟩ := h.slots j .ulong (Nat.lt_succ_self _) hti
+    have h70 := h7 0 pv.toNat (by omega) (by rw [ecell_zero]; exact hsi)
+    have hsz8 : CSem.Ty.ulong.size = 8 := rfl
+    rw [hsz8] at h70
+    have hpv : loadLE al.bytes 0 8 = pv := by
+      apply UInt64.toNat_inj.1
+      have h1 := (loadLE al.bytes 0 8).toNat_lt
+      have h2 := pv.toNat_lt
+      simp only [Nat.zero_mul, Nat.reduceMul] at h70
+      omega
+    refine ⟨Nat.lt_succ_self _, hc0, al, pv, j', al', h2, hpv, hj', hal', hb, hsz, hbs, htop, ?_⟩
+    intro e v he hv
+    rw [set_get_ne _ _ (by omega)] at hv
+    exact hel e v he hv
+
 /-- reading element `e` of variable `k` back -/
-theorem AInv.loadAt (cs : Bool) {M0 : Mem} {cnts σ : List Nat} {vtys : List CSem.Ty} {s : Store} {i : Nat}
-    {env : Env} {M : Mem} (h : AInv M0 cnts σ vtys s i env M) {k : Nat} {t : CSem.Ty} {v : Int} (hk : k < i)
+theorem AInv.loadAt (cs : Bool) {M0 : Mem} {cnts σ : List Nat} {W : List (CSem.Ty × Nat × Nat)} {vtys : List CSem.Ty} {s : Store} {i : Nat}
+    {env : Env} {M : Mem} (h : AInv M0 cnts W σ vtys s i env M) {k : Nat} {t : CSem.Ty} {v : Int} (hk : k < i)
     (hkt : vtys[k]? = some t) {e : Nat} (he : e < cnts.getD k 1)
     (hv : s[ecell k (xbase cnts k) e]? = some (some v)) :
     ∃ a : UInt64, env[tmpName (σ.getD k 0)]? = some ⟨.l, a⟩ ∧ a.toNat + e * t.size < 2 ^ 64 ∧
@@ -438,8 +532,8 @@ theorem AInv.loadAt (cs : Bool) {M0 : Mem} {cnts σ : List Nat} {vtys : List CSe
   exact load_rep cs t v M ra _ hload (h6 e v he hv)
 
 /-- reading an initialised variable back -/
-theorem AInv.load (cs : Bool) {M0 : Mem} {cnts σ : List Nat} {vtys : List CSem.Ty} {s : Store} {i : Nat}
-    {env : Env} {M : Mem} (h : AInv M0 cnts σ vtys s i env M) {k : Nat} {t : CSem.Ty} {v : Int} (hk : k < i)
+theorem AInv.load (cs : Bool) {M0 : Mem} {cnts σ : List Nat} {W : List (CSem.Ty × Nat × Nat)} {vtys : List CSem.Ty} {s : Store} {i : Nat}
+    {env : Env} {M : Mem} (h : AInv M0 cnts W σ vtys s i env M) {k : Nat} {t : CSem.Ty} {v : Int} (hk : k < i)
     (hkt : vtys[k]? = some t) (hv : s[k]? = some (some v)) :
     ∃ a r, env[tmpName (σ.getD k 0)]? = some a ∧
       execOp (.load (loadOf cs t)) (some (cls t)) [a] M none = .ok (r, M) ∧ Rep t v r := by
@@ -449,8 +543,8 @@ theorem AInv.load (cs : Bool) {M0 : Mem} {cnts σ : List Nat} {vtys : List CSem.
   exact ⟨⟨.l, a⟩, r, h1, hx, hr⟩
 
 /-- Releasing the frame gives the caller its memory back. -/
-theorem AInv.popTo {M0 : Mem} {cnts σ : List Nat} {vtys : List CSem.Ty} {s : Store} {i : Nat} {env : Env}
-    {M : Mem} (h : AInv M0 cnts σ vtys s i env M) : M.popTo M0.stack.size M0.sp = M0 := by
+theorem AInv.popTo {M0 : Mem} {cnts σ : List Nat} {W : List (CSem.Ty × Nat × Nat)} {vtys : List CSem.Ty} {s : Store} {i : Nat} {env : Env}
+    {M : Mem} (h : AInv M0 cnts W σ vtys s i env M) : M.popTo M0.stack.size M0.sp = M0 := by
   cases M0 with
   | mk g0 st0 sp0 =>
     cases M with
@@ -468,34 +562,36 @@ theorem AInv.popTo {M0 : Mem} {cnts σ : List Nat} {vtys : List CSem.Ty} {s : St
 
 /-- The invariant while the body runs: every variable has its slot, the store is well-typed (the cells of
     the variables and the cells of the further array elements). -/
-structure SInv (M0 : Mem) (cs : Bool) (cnts : List Nat) (σ : List Nat) (vtys : List CSem.Ty) (s : Store)
-    (env : Env) (M : Mem) : Prop where
-  a : AInv M0 cnts σ vtys s vtys.length env M
+structure SInv (M0 : Mem) (cs : Bool) (cnts : List Nat) (W : List (CSem.Ty × Nat × Nat)) (σ : List Nat)
+    (vtys : List CSem.Ty) (s : Store) (env : Env) (M : Mem) : Prop where
+  a : AInv M0 cnts W σ vtys s vtys.length env M
   clen : cnts.length = vtys.length
-  slen : s.length = vtys.length + xcount cnts cnts.length
+  slen : vtys.length + xcount cnts cnts.length ≤ s.length
   range : ∀ (i : Nat) (t : CSem.Ty) (v : Int), vtys[i]? = some t → s[i]? = some (some v) →
     InRange (t.intTy cs) v
   xrange : ∀ (k e : Nat) (t : CSem.Ty) (v : Int), vtys[k]? = some t → e < cnts.getD k 1 →
     s[ecell k (xbase cnts k) e]? = some (some v) → InRange (t.intTy cs) v
+  wrange : ∀ (j e : Nat) (t : CSem.Ty) (w c0 : Nat) (v : Int), W[j]? = some (t, w, c0) → e < w →
+    s[c0 + e]? = some (some v) → InRange (t.intTy cs) v
 
 theorem lt_of_get {α : Type} {l : List α} {i : Nat} {x : α} (h : l[i]? = some x) : i < l.length := by
   rcases Nat.lt_or_ge i l.length with h' | h'
   · exact h'
   · rw [List.getElem?_eq_none h'] at h; cases h
 
-theorem SInv.varsIn {S : Sit} {M0 : Mem} {cnts σ : List Nat} {vtys : List CSem.Ty} {s : Store} {env : Env}
-    {M : Mem} (h : SInv M0 S.cs cnts σ vtys s env M) : VarsIn (setM S M) σ vtys s env := by
+theorem SInv.varsIn {S : Sit} {M0 : Mem} {cnts σ : List Nat} {W : List (CSem.Ty × Nat × Nat)} {vtys : List CSem.Ty} {s : Store} {env : Env}
+    {M : Mem} (h : SInv M0 S.cs cnts W σ vtys s env M) : VarsIn (setM S M) σ vtys s env := by
   intro i t v ht hv
   exact h.a.load S.cs (lt_of_get ht) ht hv
 
-theorem SInv.env {M0 : Mem} {cs : Bool} {cnts σ : List Nat} {vtys : List CSem.Ty} {s : Store} {env env' : Env}
-    {M : Mem} (h : SInv M0 cs cnts σ vtys s env M)
+theorem SInv.env {M0 : Mem} {cs : Bool} {cnts σ : List Nat} {W : List (CSem.Ty × Nat × Nat)} {vtys : List CSem.Ty} {s : Store} {env env' : Env}
+    {M : Mem} (h : SInv M0 cs cnts W σ vtys s env M)
     (he : ∀ k, k < vtys.length → env'[tmpName (σ.getD k 0)]? = env[tmpName (σ.getD k 0)]?) :
-    SInv M0 cs cnts σ vtys s env' M := ⟨h.a.env he, h.clen, h.slen, h.range, h.xrange⟩
+    SInv M0 cs cnts W σ vtys s env' M := ⟨h.a.env he, h.clen, h.slen, h.range, h.xrange, h.wrange⟩
 
-theorem SInv.forget {M0 : Mem} {cs : Bool} {cnts σ : List Nat} {vtys : List CSem.Ty} {s : Store} {env : Env}
-    {M : Mem} (h : SInv M0 cs cnts σ vtys s env M) (j : Nat) : SInv M0 cs cnts σ vtys (s.set j none) env M := by
-  refine ⟨h.a.forget j, h.clen, by simp [h.slen], ?_, ?_⟩
+theorem SInv.forget {M0 : Mem} {cs : Bool} {cnts σ : List Nat} {W : List (CSem.Ty × Nat × Nat)} {vtys : List CSem.Ty} {s : Store} {env : Env}
+    {M : Mem} (h : SInv M0 cs cnts W σ vtys s env M) (j : Nat) : SInv M0 cs cnts W σ vtys (s.set j none) env M := by
+  refine ⟨h.a.forget j, h.clen, by simp only [List.length_set]; exact h.slen, ?_, ?_, ?_⟩
   · intro i t v ht hv
     by_cases hji : j = i
     · subst hji
@@ -511,30 +607,37 @@ theorem SInv.forget {M0 : Mem} {cs : Bool} {cnts σ : List Nat} {vtys : List CSe
       split at hv <;> cases hv
     · rw [set_get_ne _ _ hji] at hv
       exact h.xrange k e t v ht he hv
+  · intro j' e t w c0 v hw he hv
+    by_cases hji : j = c0 + e
+    · rw [← hji, List.getElem?_set] at hv
+      simp only [if_true] at hv
+      split at hv <;> cases hv
+    · rw [set_get_ne _ _ hji] at hv
+      exact h.wrange j' e t w c0 v hw he hv
 
 /-- several cells become indeterminate -/
-theorem SInv.clear {M0 : Mem} {cs : Bool} {cnts σ : List Nat} {vtys : List CSem.Ty} {s : Store} {env : Env}
-    {M : Mem} (h : SInv M0 cs cnts σ vtys s env M) (l : List Nat) :
-    SInv M0 cs cnts σ vtys (CSem2.clear s l) env M := by
+theorem SInv.clear {M0 : Mem} {cs : Bool} {cnts σ : List Nat} {W : List (CSem.Ty × Nat × Nat)} {vtys : List CSem.Ty} {s : Store} {env : Env}
+    {M : Mem} (h : SInv M0 cs cnts W σ vtys s env M) (l : List Nat) :
+    SInv M0 cs cnts W σ vtys (CSem2.clear s l) env M := by
   unfold CSem2.clear
   induction l generalizing s with
   | nil => exact h
   | cons i l ih => exact ih (h.forget i)
 
 /-- a store to element `e` of variable `k` -/
-theorem SInv.storeAt {M0 : Mem} {cs : Bool} {cnts σ : List Nat} {vtys : List CSem.Ty} {s : Store} {env : Env}
-    {M : Mem} (h : SInv M0 cs cnts σ vtys s env M) {k : Nat} {t : CSem.Ty} (hkt : vtys[k]? = some t)
+theorem SInv.storeAt {M0 : Mem} {cs : Bool} {cnts σ : List Nat} {W : List (CSem.Ty × Nat × Nat)} {vtys : List CSem.Ty} {s : Store} {env : Env}
+    {M : Mem} (h : SInv M0 cs cnts W σ vtys s env M) {k : Nat} {t : CSem.Ty} (hkt : vtys[k]? = some t)
+    (hWk : W.length ≤ k)
     {e : Nat} (he : e < cnts.getD k 1) {v : Int} {r : RVal} (hv : InRange (t.intTy cs) v)
     (hr : StoreVal t v r) :
     ∃ (a : UInt64) (M' : Mem), env[tmpName (σ.getD k 0)]? = some ⟨.l, a⟩ ∧
       (∀ ra : RVal, ra.asL = .ok (UInt64.ofNat (a.toNat + e * t.size)) →
         execOp (.store (storeOf t)) none [r, ra] M none = .ok (dummy, M')) ∧
       a.toNat + e * t.size < 2 ^ 64 ∧
-      SInv M0 cs cnts σ vtys (s.set (ecell k (xbase cnts k) e) (some v)) env M' := by
+      SInv M0 cs cnts W σ vtys (s.set (ecell k (xbase cnts k) e) (some v)) env M' := by
   have hkl : k < cnts.length := by rw [h.clen]; exact lt_of_get hkt
-  obtain ⟨a, M', h1, h2, _, h3, h4⟩ := h.a.storeAt h.clen (lt_of_get hkt) hkt he hr
-  have hcell : ecell k (xbase cnts k) e < s.length := by
-    rw [h.slen]
+  obtain ⟨a, M', h1, h2, _, h3, h4⟩ := h.a.storeAt h.clen (lt_of_get hkt) hWk hkt he hr
+  have hcellb : ecell k (xbase cnts k) e < vtys.length + xcount cnts cnts.length := by
     unfold ecell xbase
     split
     · exact Nat.lt_of_lt_of_le (lt_of_get hkt) (Nat.le_add_right _ _)
@@ -542,7 +645,8 @@ theorem SInv.storeAt {M0 : Mem} {cs : Bool} {cnts σ : List Nat} {vtys : List CS
       rw [xcount_succ cnts hkl] at this
       have := h.clen
       omega
-  refine ⟨a, M', h1, h2, h3, h4, h.clen, by simp [h.slen], ?_, ?_⟩
+  have hcell : ecell k (xbase cnts k) e < s.length := Nat.lt_of_lt_of_le hcellb h.slen
+  refine ⟨a, M', h1, h2, h3, h4, h.clen, by simp only [List.length_set]; exact h.slen, ?_, ?_, ?_⟩
   · intro i t' v' ht' hv'
     by_cases hki : ecell k (xbase cnts k) e = i
     · have hil : i < cnts.length := by rw [h.clen]; exact lt_of_get ht'
@@ -567,15 +671,21 @@ theorem SInv.storeAt {M0 : Mem} {cs : Bool} {cnts σ : List Nat} {vtys : List CS
       cases hv'; exact hv
     · rw [set_get_ne _ _ hki] at hv'
       exact h.xrange k' e' t' v' ht' he' hv'
+  · intro j e' t' w c0 v' hw he' hv'
+    obtain ⟨_, g0, _⟩ := h.a.wins j t' w c0 hw
+    have hne : ecell k (xbase cnts k) e ≠ c0 + e' := by omega
+    rw [set_get_ne _ _ hne] at hv'
+    exact h.wrange j e' t' w c0 v' hw he' hv'
 
-theorem SInv.store {M0 : Mem} {cs : Bool} {cnts σ : List Nat} {vtys : List CSem.Ty} {s : Store} {env : Env}
-    {M : Mem} (h : SInv M0 cs cnts σ vtys s env M) {k : Nat} {t : CSem.Ty} (hkt : vtys[k]? = some t)
+theorem SInv.store {M0 : Mem} {cs : Bool} {cnts σ : List Nat} {W : List (CSem.Ty × Nat × Nat)} {vtys : List CSem.Ty} {s : Store} {env : Env}
+    {M : Mem} (h : SInv M0 cs cnts W σ vtys s env M) {k : Nat} {t : CSem.Ty} (hkt : vtys[k]? = some t)
+    (hWk : W.length ≤ k)
     {v : Int} {r : RVal} (hv : InRange (t.intTy cs) v) (hr : StoreVal t v r) :
     ∃ (a : UInt64) (M' : Mem), env[tmpName (σ.getD k 0)]? = some ⟨.l, a⟩ ∧
       execOp (.store (storeOf t)) none [r, ⟨.l, a⟩] M none = .ok (dummy, M') ∧
-      SInv M0 cs cnts σ vtys (s.set k (some v)) env M' := by
+      SInv M0 cs cnts W σ vtys (s.set k (some v)) env M' := by
   obtain ⟨_, _, _, _, _, hc, _⟩ := h.a.slots k t (lt_of_get hkt) hkt
-  obtain ⟨a, M', h1, h2, _, h4⟩ := h.storeAt hkt (e := 0) (by omega) hv hr
+  obtain ⟨a, M', h1, h2, _, h4⟩ := h.storeAt hkt hWk (e := 0) (by omega) hv hr
   rw [ecell_zero] at h4
   exact ⟨a, M', h1, h2 ⟨.l, a⟩ (by simp [RVal.asL]), h4⟩
 
